@@ -155,6 +155,39 @@ def body_history(case, rec):
             raise Violation(f"round {k + 1}: smart sort after renaming gives {got2}; fresh scaffolds sort as {fresh}")
 
 
+def body_pipeline(case, rec):
+    """scaffold order in the remapper's output for maps without any painted scaffold (all scaffolds unplaced)"""
+    import re
+
+    from vf import remap
+
+    rec.note(case, len(case["input"]) >= 10, ())
+    try:
+        res = remap.run_api(case)
+    except Exception as e:  # noqa: BLE001
+        raise Violation(f"remapping an unpainted model map raised {type(e).__name__}: {e}") from e
+    for k, asm in res.assemblies.items():
+        names = [s.name for s in asm.scaffolds]
+        keyf = lambda n: [int(x) if x.isdigit() else x for x in re.split(r"(\d+)", n)]  # noqa: E731
+        if names != sorted(names, key=keyf):
+            raise Violation(f"assembly {k}: unplaced scaffolds are not written in numeric-aware name order: {names}")
+
+
+@st.composite
+def pipeline_cases(draw):
+    from vf import gen
+
+    t = draw(gen.texel(small=True))
+    n = draw(st.integers(3, 14))
+    inp = []
+    pat = draw(st.sampled_from(["scaffold_{}", "ctg{}", "s{}"]))
+    for i in draw(st.permutations(range(1, n + 1))):
+        ln = draw(st.integers(4, 60)) * max(1, int(t))
+        inp.append([pat.format(i), [["F", f"c{i}", 1, ln, 1]]])
+    m = draw(gen.model_map(inp, t, painted=False, cut=False))
+    return {"t": gen.texel_str(t), "input": inp, "map": m, "prefix": "SUPER_"}
+
+
 ALPHA = "IVX012_a"
 
 
@@ -251,6 +284,8 @@ SUBS = [
         budget={"quick": 24000, "thorough": 500000}, desc="name sets x two permutations: never raises, same key sequence, rank first"),
     Sub("numeric", kind="hyp", strategy=numeric_cases, body=body_numeric,
         budget={"quick": 8000, "thorough": 100000}, desc="metamorphic: decimal value order, I<II<III<IV, unlocs after their chromosome, rank before name"),
+    Sub("pipeline", kind="hyp", strategy=pipeline_cases, body=body_pipeline,
+        budget={"quick": 4000, "thorough": 60000}, desc="order of unplaced scaffolds written by the remapper for maps without a painted scaffold (3-14 scaffolds in drawn input and map order)"),
     Sub("history", kind="hyp", strategy=history_cases, body=body_history,
         budget={"quick": 6000, "thorough": 100000}, desc="sort / rename the same scaffold objects / sort again: order depends on current names only"),
     Sub("small_scope", kind="enum", cases=small_scope_cases, body=body_small, exhaustive=True,
